@@ -358,6 +358,7 @@ func commandAction(fn func(ctx context.Context, c *cli.Context, proc *query.Proc
 			sig := <-ch
 			signalReceived = query.NewSignalReceived(sig)
 			cancel()
+			file.VerifPoint("signal.seen", "")
 		}()
 
 		// Run preload commands
